@@ -110,6 +110,9 @@ def recv(sock: socket.socket, bufsize: int) -> bytes:
 
         if r:
             return sock.recv(bufsize)
+        # nothing arrived within the socket timeout: that is a timeout, not
+        # a lost connection
+        raise socket.timeout("timed out")
 
     try:
         if sock.gettimeout() == 0:
